@@ -268,6 +268,7 @@ def operator_table(rep, prog, g):
                     got = prog.variant_name(D.OPERATION, r.variant)
             except Inconclusive as e:
                 rep.inconc("%s: %s" % (rule, e.reason), e.where)
+                seen[text] = "?"
                 continue
         seen[text] = got
         shadow = [t for t, _ in tab[:i] if text.startswith(t) and t != text]
